@@ -363,7 +363,8 @@ def shard(s):
     else:
         gen = ({"kind": "nonstring", "index": i} for i in range(len(NONSTR)))
     for case in gen:
-        v, verdict, calls = check_case(case)
+        with core.istate(repr(case.get("s", case.get("index")))):
+            v, verdict, calls = check_case(case)
         acc.states += 1
         acc.traces += 1
         acc.transitions += calls
@@ -403,6 +404,7 @@ def run(tier, seed, t0):
     shards = [s for s in shards if s[0] != "empty"]
     shards.sort(key=lambda s: -(s[1] if s[0] == "words" else 3))
     acc = core.pmap(shard, shards)
+    acc.merge(core.run_optimized(PROP, tier))      # the rejection battery once more under `python -O`
     return core.finish(
         PROP, tier, seed, acc, t0,
         rule="every string of length 0..%d over a 17-symbol alphabet (upper/lower residues, space, tab, newline, U+00A0, U+001C, "
@@ -416,6 +418,10 @@ def run(tier, seed, t0):
         bounds={"L": L, "alphabet": len(SYMS), "codepoints": top, "hosts": HOSTS},
         assumptions=["str subclasses are not judged (the statement says non-strings are rejected and strings normalised)"],
         min_outcomes=2)
+
+
+def opt_shards(tier):
+    return [(shard, ("nonstring",)), (shard, ("words", 2, ())), (shard, ("words", 3, (8,))), (shard, ("insert", 0x20, 0x80)), (shard, ("longs",))]
 
 
 def replay(case):
